@@ -17,152 +17,15 @@ import (
 )
 
 // ---------------------------------------------------------------------------
-// independent recomputation of the listing
+// independent recomputation of the listing: verifkit/merkle.go (shared with the protocol-level harness)
 
-type refItem struct {
-	ver   int32
-	vhash uint16
-}
+type refItem = verifkit.RefItem
+type refTree = verifkit.RefTree
 
-type refTree struct {
-	depth, height int
-	items         map[uint64]refItem
-}
-
-func hexDigit(h uint64, i int) int { return int(h>>uint(4*(15-i))) & 0xf }
-
-func hasPrefix(h uint64, prefix []int) bool {
-	for i, d := range prefix {
-		if hexDigit(h, i) != d {
-			return false
-		}
-	}
-	return true
-}
-
-func (rt *refTree) count(prefix []int) uint32 {
-	n := uint32(0)
-	for h, it := range rt.items {
-		if it.ver > 0 && hasPrefix(h, prefix) {
-			n++
-		}
-	}
-	return n
-}
-
-// nodeHash of the node with the given prefix (len(prefix)-depth = level of the node).
-func (rt *refTree) nodeHash(prefix []int) uint16 {
-	level := len(prefix) - rt.depth
-	if level >= rt.height-1 {
-		var s uint16
-		for h, it := range rt.items {
-			if it.ver > 0 && hasPrefix(h, prefix) {
-				s += it.vhash * uint16(h>>32)
-			}
-		}
-		return s
-	}
-	cnt := rt.count(prefix)
-	var hash uint16
-	for i := 0; i < 16; i++ {
-		if cnt > 256 {
-			hash *= 97
-		}
-		hash += rt.nodeHash(append(append([]int{}, prefix...), i))
-	}
-	return hash
-}
-
-// list returns the expected listing for a prefix (len >= depth): either node lines or the item set.
-func (rt *refTree) list(prefix []int) (nodes []string, items map[string]bool) {
-	l := rt.depth + rt.height - 1
-	if len(prefix) < l {
-		l = len(prefix)
-	}
-	nodePrefix := prefix[:l]
-	level := l - rt.depth
-	if level >= rt.height-1 || rt.count(nodePrefix) < 256 {
-		items = map[string]bool{}
-		for h, it := range rt.items {
-			if hasPrefix(h, prefix) {
-				items[fmt.Sprintf("%016x %d %d", h, int(it.vhash), it.ver)] = true
-			}
-		}
-		return nil, items
-	}
-	for i := 0; i < 16; i++ {
-		cp := append(append([]int{}, nodePrefix...), i)
-		nodes = append(nodes, fmt.Sprintf("%x/ %d %d", i, rt.nodeHash(cp), int(rt.count(cp))))
-	}
-	return nodes, nil
-}
-
-func prefixString(p []int) string {
-	var sb strings.Builder
-	for _, d := range p {
-		sb.WriteString(strconv.FormatInt(int64(d), 16))
-	}
-	return sb.String()
-}
-
-// compareListing checks the output of ListDir for a prefix against the reference.
-// liveOnly: item lines with negative versions in got are ignored unless the key is a known tombstone candidate.
+func hexDigit(h uint64, i int) int { return verifkit.HexDigit(h, i) }
+func prefixString(p []int) string  { return verifkit.PrefixString(p) }
 func compareListing(rt *refTree, prefix []int, got []byte, tombOK map[uint64]bool) error {
-	lines := []string{}
-	for _, l := range strings.Split(string(got), "\n") {
-		if l != "" {
-			lines = append(lines, l)
-		}
-	}
-	nodes, items := rt.list(prefix)
-	ps := prefixString(prefix)
-	if nodes != nil {
-		if len(lines) != 16 {
-			return fmt.Errorf("prefix %q: expected a node listing of 16 lines, got %d lines: %.200q", ps, len(lines), string(got))
-		}
-		for i := range nodes {
-			if lines[i] != nodes[i] {
-				return fmt.Errorf("prefix %q: node line %d = %q, recomputed from content %q", ps, i, lines[i], nodes[i])
-			}
-		}
-		return nil
-	}
-	gotSet := map[string]bool{}
-	for _, l := range lines {
-		if strings.Contains(l, "/ ") {
-			return fmt.Errorf("prefix %q: expected an item listing, got node line %q", ps, l)
-		}
-		if gotSet[l] {
-			return fmt.Errorf("prefix %q: item line %q listed twice", ps, l)
-		}
-		gotSet[l] = true
-	}
-	for l := range items {
-		f := strings.Fields(l)
-		ver, _ := strconv.Atoi(f[2])
-		if ver < 0 {
-			continue // a tombstone may or may not be listed
-		}
-		if !gotSet[l] {
-			return fmt.Errorf("prefix %q: live item %q is missing from the listing (%d lines)", ps, l, len(lines))
-		}
-	}
-	for l := range gotSet {
-		if items[l] {
-			continue
-		}
-		f := strings.Fields(l)
-		if len(f) != 3 {
-			return fmt.Errorf("prefix %q: malformed item line %q", ps, l)
-		}
-		h, _ := strconv.ParseUint(f[0], 16, 64)
-		ver, _ := strconv.Atoi(f[2])
-		if ver < 0 && tombOK != nil && tombOK[h] {
-			continue
-		}
-		return fmt.Errorf("prefix %q: listing contains %q which is not in the content (live entry for a deleted/unknown key, or wrong hash/version/value hash)", ps, l)
-	}
-	return nil
+	return verifkit.CompareListing(rt, prefix, got, tombOK)
 }
 
 // ---------------------------------------------------------------------------
@@ -250,9 +113,9 @@ func c08Run(c *c08Case) (err error) {
 	Conf = conf
 	depth := conf.TreeDepth
 
-	rt := &refTree{depth: depth, height: c.Height, items: map[uint64]refItem{}}
+	rt := &refTree{Depth: depth, Height: c.Height, Items: map[uint64]refItem{}}
 	for _, it := range c.Final {
-		rt.items[it.Hash] = refItem{it.Ver, it.Vhash}
+		rt.Items[it.Hash] = refItem{Ver: it.Ver, Vhash: it.Vhash}
 	}
 	ta, err := c08Apply(newHTree(depth, c.Bucket, c.Height), c.A, dir, "a")
 	if err != nil {
@@ -268,7 +131,7 @@ func c08Run(c *c08Case) (err error) {
 	// prefixes: every prefix on the path of a stored hash (length depth..16) plus the extra ones
 	pset := map[string][]int{}
 	add := func(p []int) { pset[prefixString(p)] = append([]int{}, p...) }
-	for h := range rt.items {
+	for h := range rt.Items {
 		full := make([]int, 16)
 		for i := range full {
 			full[i] = hexDigit(h, i)
